@@ -27,6 +27,14 @@ def _library(names=None, eqform=0):
     return ops, EdgeTemplate('etmp', operators=[eop]), nm
 
 
+def _ref_template():
+    """edge template with a second input bound to a variable path: m_out = m_in - x_ref"""
+    from pyrates import OperatorTemplate, EdgeTemplate
+    dop = OperatorTemplate('dop', equations=["m_out = m_in - x_ref"],
+                           variables={'m_out': 'output(0.0)', 'm_in': 'input(0.0)', 'x_ref': 'input(0.0)'})
+    return EdgeTemplate('dtmp', operators=[dop])
+
+
 def node_path(n, hier):
     """hier 0: flat 'n<i>'; 1: every node inside sub-circuit 'c<i mod 2>'; 2: two levels."""
     if hier == 0:
@@ -54,9 +62,15 @@ def build(prog, hier=0, order=None, names=None, name='net', eqform=0):
                 over[ops[o]] = {nm['q']: float(X0['q'] + n)}
         nodes[n] = NodeTemplate(f'n{n}', operators=over)
     edges = []
+    dtmp = None
     for e in prog['edges']:
         src = f"{node_path(e['s'], hier)}/{OP_OF_VAR[e['sv']]}/{nm[e['sv']]}"
         tgt = f"{node_path(e['t'], hier)}/lin/{nm[e['tv']]}"
+        if e.get('ref'):
+            dtmp = dtmp or _ref_template()
+            edges.append((src, tgt, dtmp, {'weight': float(e['w']), 'dtmp/dop/m_in': 'source',
+                                            'dtmp/dop/x_ref': f"{node_path(e['ref'], hier)}/lin/{nm['x']}"}))
+            continue
         edges.append((src, tgt, etmp if e['tm'] else None, {'weight': float(e['w'])}))
     if hier == 0:
         return CircuitTemplate(name, nodes={f'n{n}': t for n, t in nodes.items()}, edges=edges)
